@@ -1,6 +1,4 @@
 import GontainerModel.Props.C06
-#print axioms GM.C06.pfx_nil_iff
-#print axioms GM.C06.missing_nil_iff
 #print axioms GM.C06.params_exist_exact
 #print axioms GM.C06.services_exist_exact
 #print axioms GM.C06.params_report_count
